@@ -78,7 +78,9 @@ ENTRIES = {
                                     [dict(A0=A0, gammas=[g] * n, n=n) for A0 in (1.0, 5.0) for g in (1.0, 0.5) for n in (1, 3)]
                                     + [dict(A0=A0, gammas=gs, n=3) for A0 in (1.0, 5.0) for gs in ([3.0, 1.0, 0.3], [0.3, 1.0, 3.0])]),
     "heavy_ball_momentum": E(U, "wc_heavy_ball_momentum", "upper",
-                             [dict(mu=mu, L=L, alpha=a / L, beta=math.sqrt((1 - a / L * mu) * (1 - a)), n=n) for mu, L in ((0.1, 1.0),) for a in (0.5, 0.25) for n in (1, 3)]),
+                             [dict(mu=mu, L=L, alpha=a / L, beta=math.sqrt((1 - a / L * mu) * (1 - a)), n=n) for mu, L in ((0.1, 1.0),) for a in (0.5, 0.25) for n in (1, 3)]
+                             + [dict(mu=mu, L=L, alpha=a / L, beta=math.sqrt((1 - a / L * mu) * (1 - a)), n=n)
+                                for mu, L in ((0.5, 1.0), (1.0, 2.0)) for a in (0.3, 0.8) for n in (2, 8)]),
     "heavy_ball_momentum_qg_convex": E(U, "wc_heavy_ball_momentum_qg_convex", "upper", prod(L=[1.0, 2.0], n=[1, 3, 5])),
     "epsilon_subgradient_method": E(U, "wc_epsilon_subgradient_method", "upper",
                                     [dict(M=M_, n=n, gamma=1 / math.sqrt(n + 1), eps=e, R=R) for M_ in (2.0, 1.0) for n in (2, 6) for e in (2.0, 0.1) for R in (1.0,)]),
